@@ -320,7 +320,8 @@ func TestGovcHarness_fetchEnumsAndUnions(t *testing.T) {
 	os.WriteFile(root+"/go.mod", []byte("module example.com/org/m\n\ngo 1.21\n"), 0o644)
 	w("shapes/kinds/x.go", "package kinds\n\ntype Kind int\n\nconst (\n\tCircle Kind = iota\n\tSquare\n)\n\ntype Drawable interface{ draw() }\n\ntype Pen struct{}\n\nfunc (Pen) draw() {}\n")
 	w("colors/kinds/x.go", "package kinds\n\ntype Kind string\n\nconst (\n\tRed Kind = \"r\"\n\tBlue Kind = \"b\"\n)\n\ntype Drawable interface{ draw() }\n\ntype Brush struct{}\n\nfunc (Brush) draw() {}\n\ntype Spray struct{}\n\nfunc (Spray) draw() {}\n")
-	w("deep/a/x.go", "package a\n\nimport \"example.com/org/m/deep/b\"\n\ntype A struct{ B b.Level }\n")
+	w("deep/a/x.go", "package a\n\nimport (\n\t\"example.com/org/m/deep/b\"\n\t\"example.com/org/m/deep/c\"\n\tsk \"example.com/org/m/shapes/kinds\"\n)\n\n// shapes/kinds is reached twice (root -> kinds, root -> a -> kinds): its unions keep each member once\ntype A struct {\n\tB b.Level\n\tG c.Grade\n\tK sk.Kind\n}\n\n// a constant of a type of ANOTHER package: c.Grade has no constant in its own package, so it is not an enum;\n// b.Level keeps exactly its own two members\nconst Best c.Grade = 1\n\nconst Extra b.Level = 7\n")
+	w("deep/c/x.go", "package c\n\ntype Grade int\n")
 	w("deep/b/x.go", "package b\n\ntype Level uint8\n\nconst (\n\tLow Level = iota\n\tHigh\n)\n")
 	os.WriteFile(root+"/root.go", []byte("package m\n\nimport (\n\tsk \"example.com/org/m/shapes/kinds\"\n\tck \"example.com/org/m/colors/kinds\"\n\t\"example.com/org/m/deep/a\"\n)\n\ntype T struct {\n\tS sk.Kind\n\tC ck.Kind\n\tA a.A\n\tM Mode\n}\n\ntype Mode int\n\nconst (\n\tOff Mode = iota\n\tOn\n)\n"), 0o644)
 	os.Setenv("GOFLAGS", "-mod=mod")
